@@ -28,6 +28,10 @@ def run(repo, tier) -> Result:
 
     check_merge_callers("C03", res, repo)
     check_append_order("C03", res, repo, parts=("manager", "hexital"))
+    # buckets are built from all raw candles of their window: nothing is trimmed away before the walk has run
+    from ..driver import check_tasks_order
+
+    check_tasks_order("C03", res, repo, need=(("collapse", "trim"),))
     # Hexital.candles(timeframe): a new timeframe manager must collapse its own deep copy of the base candles
     from .c08 import check_binding
 
